@@ -362,7 +362,8 @@ class World:
                 d = self.tasks[i % len(self.tasks)].tid
                 if d not in deps:
                     deps.append(d)
-        name = f"t{idx}"
+        # dots are legal in target names (families such as Map.sample_1, versions such as v1.2_align)
+        name = f"t{idx}" if idx % 3 == 0 else f"t{idx - idx % 3}.part{idx % 3}" if idx % 3 == 1 else f"v{idx}.2_x"
         script = f"# task {idx}\nexit 0"
         # registered before the pool sees it: the task may be started while
         # enqueue_task is still being settled
